@@ -110,6 +110,7 @@ var (
 	sStallMax                              uint64
 	sStallGap                              uint32
 	sStallHot                              bool
+	sTicks                                 uint64 // statements of the instrumented module reached so far (any goroutine)
 	sClkRate, sClkRng, sClkLeft, sClkJumps uint64
 	sClkStart                              int64
 	sMainG                                 uintptr // the goroutine that runs the sequential phases (reference passes, canary)
@@ -164,6 +165,9 @@ func mixHash(a, b uint64) {
 //
 //go:norace
 func yieldHook(site int) {
+	if site >= 0 {
+		sTicks++ // progress, as the watchdog understands it
+	}
 	cur := sCur // read once: a foreign goroutine may be preempted between the test and the use
 	if sActive && (cur < 0 || cur >= maxTasks || getg() != sTaskG[cur]) {
 		// Called by a goroutine the simulator does not own (a finalizer, a timer callback, a goroutine
@@ -288,6 +292,12 @@ const (
 	simEpoch   = int64(1767225600e9)            // 2026-01-01T00:00:00Z
 	simHorizon = int64(150 * 365 * 24 * 3600e9) // 150 years
 )
+
+// progressTicks is read by the watchdog goroutine (plain variable, invisible to the race detector like the rest of
+// the scheduler state).
+//
+//go:norace
+func progressTicks() uint64 { return sTicks }
 
 //go:norace
 func clkRnd() uint64 {
